@@ -37,6 +37,7 @@ RULES = {
     "R20.7": "every self.config.<field> read by a method that a concrete solver / problem class resolves to exists in that class's own Config (so the kwargs, config-only and reload routes all find it)",
     "R20.8": "the four problem constructors and the solver accept `config` or keyword arguments the same way: self.config = config if given else self.Config(**kwargs)",
     "R20.9": "verbosity: every validator-accepted level 0..4 is a key of the level table, the table is {0:ERROR,1:WARNING,2:INFO,3:DEBUG,4:TRACE}, the string table of set_verbosity is its inverse, anything else raises",
+    "R20.10": "defaults: every field default lies in the validator-accepted domain, and the five solver configurations agree on the defaults of their shared fields (gamma of relative value iteration excepted); jax_double_precision defaults to True",
     "R20.6": "the 64-bit switch dominates every JAX array creation and the problem instantiation in Solver._setup_config; problem constructors do not create floating tables before a solver can enable it",
 }
 ASSUMPTIONS = [
@@ -770,6 +771,61 @@ def _verbosity(ctx, col):
             "the converted level is installed on the logger sink" if okw else "the converted level does not reach logger.add(level=...)", text="level installed")
 
 
+# =============================================================================== R20.10
+def _defaults(ctx, col):
+    shared: dict[str, dict[str, object]] = {}
+    for cfg in c10.config_classes(ctx):
+        fields = ctx.ct.all_fields(cfg)
+        _o, vf, got, _e, _n = validator_constraints(ctx, cfg)
+        is_solver = any(k.name == "SolverConfig" for k in ctx.ct.mro(cfg))
+        for f, (k, node) in fields.items():
+            if node.value is None or f == "_target_":
+                continue
+            try:
+                dv = ast.literal_eval(node.value)
+            except Exception:
+                continue  # MISSING etc.
+            if is_solver:
+                shared.setdefault(f, {})[cfg.name] = dv
+            cons = got.get(f, [])
+            bad = None
+            for c in cons:
+                if c[0] == "accept" and isinstance(dv, (int, float)) and not isinstance(dv, bool):
+                    if not any(iv.contains(float(dv)) for iv in c[1]):
+                        bad = f"default {dv!r} is outside the accepted {_fmt_c(c)}"
+                elif c[0] == "set" and dv not in c[1]:
+                    bad = f"default {dv!r} is not one of {_fmt_c(c)}"
+                elif c[0] == "len" and hasattr(dv, "__len__") and len(dv) != c[1]:
+                    bad = f"default has length {len(dv)}, accepted {_fmt_c(c)}"
+                elif c[0] == "each" and hasattr(dv, "__iter__") and not all(any(iv.contains(float(x)) for iv in c[1]) for x in dv):
+                    bad = f"default {dv!r} has an element outside {_fmt_c(c)}"
+                elif c[0] == "len_rel" and hasattr(dv, "__len__"):
+                    other = fields.get(c[1])
+                    try:
+                        ov = ast.literal_eval(other[1].value) if other and other[1].value is not None else None
+                    except Exception:
+                        ov = None
+                    if isinstance(ov, int) and len(dv) != ov + c[2]:
+                        bad = f"default has length {len(dv)} but default {c[1]}{c[2]:+d} = {ov + c[2]}"
+            if cons:
+                col.add("R20.10", f"{cfg.name}.{f}", cfg.module.relpath, node.lineno, bad is None,
+                        f"default {dv!r} is accepted by the validator" if bad is None else bad + ": the default configuration is rejected by its own validator",
+                        text=f"default of {f}")
+    for f, per in sorted(shared.items()):
+        if len(per) < 2:
+            continue
+        vals = {k: v for k, v in per.items() if not (f == "gamma" and k == "RelativeValueIterationConfig")}
+        distinct = {repr(v) for v in vals.values()}
+        ok = len(distinct) == 1
+        if f == "jax_double_precision":
+            ok = ok and all(v is True for v in vals.values())
+        anyc = c10.config_classes(ctx)[0]
+        col.add("R20.10", f"SolverConfigs.{f}", "src/mdpax/solvers", 0, ok,
+                f"all {len(vals)} solver configurations default `{f}` to {next(iter(vals.values()))!r}" if ok else
+                f"solver configurations disagree on the default of `{f}`: {vals}" + (" (double precision is documented as the default)" if f == "jax_double_precision" else ""),
+                text=f"sibling default {f}")
+
+
 # =============================================================================== R20.7 / R20.8
 def _config_fields(ctx, col):
     n = 0
@@ -841,6 +897,8 @@ def run(ctx: Context, col) -> None:
     _config_fields(ctx, col)
     _verbosity(ctx, col)
     col.floor("R20.9", 9)
+    _defaults(ctx, col)
+    col.floor("R20.10", 40)
     _x64(ctx, col)
     try:
         _format_precision(ctx, col)
